@@ -891,3 +891,55 @@ Corollary tokens_line_machine toks s :
 Proof.
   intros H. unfold process_tokens_line. apply line_loop_tokenize. apply tokenizer_correct. exact H.
 Qed.
+
+(** ** rejection: the syntactic escapes the code tests *)
+
+(** a closing quote followed by anything but a blank, [^], [@] or the end of
+    the line raises ValueError *)
+Lemma nlt_lit_reject b line i bl lex c rest :
+  at_pos line i (bl ++ (s_quote ++ lex ++ s_quote) ++ c :: rest) -> blanks bl -> Lex lex ->
+  chr_eqb c ttl_blank = false -> mem_str [c] ttl_literal_suffix_chars = false ->
+  next_line_token b line i = Err TEValue.
+Proof.
+  intros H Hb Hlex Hcb Hcs.
+  pose proof (at_pos_advance _ _ _ _ H) as H1.
+  set (q0 := i + len bl) in *.
+  assert (Hq0 : 0 <= q0) by (apply (at_pos_nonneg _ _ _ H1)).
+  destruct H1 as (pre & Hline & Hq0e).
+  assert (Hscan : find_next_unescaped_quotes line (q0 + 1) = Ok (q0 + 1 + len lex)).
+  { unfold find_next_unescaped_quotes.
+    replace (q0 + 1) with (len (pre ++ s_quote)) by (rewrite len_app, <- Hq0e; reflexivity).
+    apply (scan_lex line (c :: rest) lex Hlex (pre ++ s_quote)).
+    - rewrite Hline. rewrite <- !app_assoc. reflexivity.
+    - destruct pre; discriminate.
+    - unfold s_quote. rewrite tbk_snoc. reflexivity.
+    - rewrite Hline. rewrite !app_length. cbn [List.length]. lia. }
+  assert (H1 : at_pos line q0 ((s_quote ++ lex ++ s_quote) ++ c :: rest)) by (exists pre; auto).
+  assert (Hopen : at_pos line q0 (ttl_lit_open :: (lex ++ s_quote) ++ c :: rest)) by exact H1.
+  assert (Hafter : at_pos line (q0 + 1 + len lex + 1) (c :: rest)).
+  { exists (pre ++ s_quote ++ lex ++ s_quote). split.
+    - rewrite Hline, <- !app_assoc. reflexivity.
+    - rewrite !len_app, <- Hq0e. change (len s_quote) with 1. lia. }
+  unfold next_line_token.
+  rewrite (skip_blanks_at_pos line i bl _ H Hb eq_refl). fold q0.
+  rewrite (at_pos_len _ _ _ Hafter), len_cons.
+  rewrite Zleb_false_lt by (pose proof (len_nonneg lex); pose proof (len_nonneg rest); lia).
+  rewrite (at_idx_at_pos _ _ _ _ Hopen).
+  change (mem_str [ttl_lit_open] ttl_CLOSURES) with false.
+  change (chr_eqb ttl_lit_open ttl_iri_open) with false. rewrite chr_eqb_refl. cbv iota.
+  unfold find_literal_ending. rewrite Hscan. cbn [bind].
+  rewrite (at_pos_len _ _ _ Hafter), len_cons.
+  rewrite Zleb_false_lt by (pose proof (len_nonneg rest); lia).
+  unfold is_char_at. rewrite (at_idx_at_pos _ _ _ _ Hafter), Hcb, Hcs. reflexivity.
+Qed.
+
+(** a token met when the registers are full raises ValueError and nothing is yielded for it *)
+Lemma step_not_waiting s tok :
+  state s = NW -> closure_state tok = None -> step s tok = ([], Err TEValue).
+Proof. intros Hs Hc. unfold step, assign. rewrite Hc, Hs. reflexivity. Qed.
+
+(** an exception ends the run: what was yielded before it is kept, nothing follows *)
+Lemma machine_error_stops a tok b s ts s' ts2 e :
+  machine a s = (ts, Ok s') -> step s' tok = (ts2, Err e) ->
+  machine (a ++ tok :: b) s = (ts ++ ts2, Err e).
+Proof. intros Ha Hs. rewrite machine_app, Ha. cbn [machine]. rewrite Hs. reflexivity. Qed.
